@@ -1,6 +1,7 @@
 package harness
 
 import (
+	"regexp"
 	"errors"
 	"net/http"
 	"syscall"
@@ -318,11 +319,15 @@ func (rc *runCtx) audit(op *Op) *Audit {
 	return a
 }
 
+var hexAddr = regexp.MustCompile(`0x[0-9a-f]{6,}`)
+
+// errStr is the text of an error as it goes into the event log: addresses that a badly
+// formatted message may carry are masked, they differ from one execution to the next
 func errStr(err error) string {
 	if err == nil {
 		return ""
 	}
-	return err.Error()
+	return hexAddr.ReplaceAllString(err.Error(), "0xADDR")
 }
 
 // loadProject writes the scenario's files and loads them with the real loader.
